@@ -129,6 +129,87 @@ def kind_predicates(ctx, run, rule='R12.2'):
     run.floor(rule, 'kind predicates used by contains_value', len(used), 2)
 
 
+def _own_guard(conds, x, y):
+    """a condition of the path that makes the recursive test contains(x, y) legitimate: eq_variant(x, y) holds, or y is not a scalar"""
+    for c in conds:
+        t = c[0]
+        if is_call(t, 'Value::eq_variant') and c[2] is True and {repr(deref_all(t[2][0])), repr(deref_all(t[2][1]))} == {repr(x), repr(y)}:
+            return True
+        if is_call(t, 'Value::is_scalar') and c[2] is False and deref_all(t[2][0]) == y:
+            return True
+        if is_call(t, 'Value::is_array', 'Value::is_object') and c[2] is True and deref_all(t[2][0]) == y:
+            return True
+        if t[0] == 'discr' and deref_all(t[1]) == y and c[1] == 'eq' and c[2] in (4, 5):      # matched as Value::Array / Value::Object
+            return True
+    return False
+
+
+def _upvar_index(t):
+    t = deref_all(t)
+    if t[0] == 'field' and deref_all(t[1])[0] == 'init' and deref_all(t[1])[1] == 1:
+        ix = t[3] if len(t) > 3 else t[2]
+        return ix if isinstance(ix, int) else None
+    return None
+
+
+def outer_guard(f, path, x, y, depth=0):
+    """The recursive test contains(x, y) sits in a closure or a private helper and is not guarded there: is it guarded where the closure
+    is built / the helper is called, for the values x and y stand for?  True / False / None (not traceable)."""
+    if depth > 3:
+        return None
+    b = f.bodies.get(path)
+    if b is None:
+        return None
+    from rules.editing import region_paths
+    if '::{closure' in path:
+        parent = path.rsplit('::{closure', 1)[0]
+        pb = f.bodies.get(parent)
+        if pb is None:
+            return None
+        iy = _upvar_index(y)
+        if iy is None:
+            return False if (deref_all(y)[0] in ('init', 'field', 'deref')) else None     # y is an item handed in by the adaptor: nothing upstream speaks about it
+        ix = _upvar_index(x)
+        verdicts = []
+        for q in region_paths(pb)[0]:
+            for e in q.calls():
+                for a in e[2]:
+                    for s_ in subterms(a):
+                        if s_[0] == 'agg' and isinstance(s_[1], tuple) and s_[1][0] == 'closure' and s_[1][1] == path and iy < len(s_[2]):
+                            py = deref_all(s_[2][iy])
+                            px = deref_all(s_[2][ix]) if ix is not None and ix < len(s_[2]) else None
+                            g = _own_guard(q.conds[:e[6]], px, py)
+                            if not g:
+                                g = outer_guard(f, parent, px if px is not None else py, py, depth + 1)
+                            verdicts.append(g)
+        if not verdicts:
+            return None
+        return True if all(v is True for v in verdicts) else (False if any(v is False for v in verdicts) else None)
+    # a private helper: look at every call site
+    if b.vis == 'pub':
+        return None
+    dx, dy = deref_all(x), deref_all(y)
+    if not (dy[0] == 'init' and isinstance(dy[1], int) and dy[1] <= b.argc):
+        return None
+    verdicts = []
+    for cp, cb in f.bodies.items():
+        if cb.kind == 'Promoted' or not any(callee_name(t_) == path or canon(callee_name(t_)) == canon(path) for _, t_ in cb.calls()):
+            continue
+        for q in region_paths(cb)[0]:
+            for e in q.calls():
+                if not (e[1] == path or canon(e[1]) == canon(path)) or dy[1] - 1 >= len(e[2]):
+                    continue
+                ay = deref_all(e[2][dy[1] - 1])
+                ax = deref_all(e[2][dx[1] - 1]) if dx[0] == 'init' and isinstance(dx[1], int) and dx[1] - 1 < len(e[2]) else None
+                g = _own_guard(q.conds[:e[6]], ax, ay)
+                if not g:
+                    g = outer_guard(f, cp, ax if ax is not None else ay, ay, depth + 1)
+                verdicts.append(g)
+    if not verdicts:
+        return None
+    return True if all(v is True for v in verdicts) else (False if any(v is False for v in verdicts) else None)
+
+
 def tree_twin_guards(ctx, run, rule='R12.2'):
     f = ctx.facts
     # ---- R12.2 tree twin: recursion guards
@@ -139,6 +220,7 @@ def tree_twin_guards(ctx, run, rule='R12.2'):
         paths, loops = editing.region_paths(b)
         n = 0
         bad = []
+        unsure = []
         for q in paths:
             for e in q.calls():
                 if not called(e[1], 'functions::contains_value'):
@@ -158,7 +240,31 @@ def tree_twin_guards(ctx, run, rule='R12.2'):
                 if not ok:
                     tt = e[5]
                     bad.append(f"{tt.get('file')}:{tt.get('line')}")
-        if bad:
+        # the recursive tests written inside closures of the function (all / any adaptors) or in a private helper it calls
+        cone = [x_ for x_ in ctx.cg.reachable([b.path]) if x_ in f.bodies and x_ != b.path and f.bodies[x_].kind != 'Promoted' and
+                (x_.startswith(b.path + '::{closure') or (x_.startswith('functions::') and f.bodies[x_].vis != 'pub'))]
+        for cp in sorted(cone):
+            cb = f.bodies[cp]
+            if not any(called(callee_name(t_), 'functions::contains_value') for _, t_ in cb.calls()):
+                continue
+            for q in editing.region_paths(cb)[0]:
+                for e in q.calls():
+                    if not called(e[1], 'functions::contains_value') or len(e[2]) < 2:
+                        continue
+                    n += 1
+                    x, y = deref_all(e[2][0]), deref_all(e[2][1])
+                    if _own_guard(q.conds[:e[6]], x, y):
+                        continue
+                    g = outer_guard(f, cp, x, y)
+                    tt = e[5]
+                    if g is False:
+                        bad.append(f"{tt.get('file')}:{tt.get('line')}")
+                    elif g is None:
+                        unsure.append(f"{tt.get('file')}:{tt.get('line')}")
+        if unsure and not bad:
+            run.undecided(rule, b.path, 'recursion-guards', f'a recursive containment test inside a closure or helper (at {sorted(set(unsure))[:2]}) is not guarded there, and what guards it where the closure is built / '
+                          'the helper is called could not be traced: not decided', f'{b.file}:{b.line}')
+        elif bad:
             run.violation(rule, b.path, 'recursion-guards', f'a recursive containment test (at {sorted(set(bad))}) is made without first establishing that both operands have the same kind '
                           'or that the right operand is a container: the top-level "array contains a bare scalar" exception then applies to nested members too', f'{b.file}:{b.line}')
         else:
@@ -388,4 +494,6 @@ def check(ctx, run):
     boundaries.check(ctx, run, 'R12.4', [p_ for p_ in sorted(boundaries.load_baseline() or {}) if _bf(p_)], 'containment answers false')
     from rules import walkers as _walkers
     _walkers.w_pair(ctx, run, 'R12.9/R05.14', only=lambda p_: 'contains' in p_)
+    from rules import editing as _editing
+    _editing.r06_17(ctx, run, rule='R12.10/R06.17', only=lambda p_: 'contains' in p_)
     return report.finish(run, level='other', explanation=EXPLANATION, assumptions=["A1: valid documents"])
